@@ -223,7 +223,9 @@ func TestC13_FullExpr(t *testing.T) {
 			feat := map[string]bool{}
 			js := gen.EncodeJSONString(tmpl, rchooser{t}, true, feat)
 			asKey := rapid.IntRange(0, 3).Draw(t, "askey") == 0
-			nat, ndiags := hclsyntax.ParseTemplate([]byte(tmpl), "t.tmpl", hcl.InitialPos)
+			// the content of a string starts after its opening quote, never at the beginning of a
+			// file, so a leading U+FEFF is content and not a byte order mark
+			nat, ndiags := hclsyntax.ParseTemplate([]byte(tmpl), "t.tmpl", hcl.Pos{Line: 1, Column: 2, Byte: 1})
 			var want cty.Value
 			var wdiags hcl.Diagnostics
 			c.Guard("native template Value", func() { want, wdiags = nat.Value(ctx) })
